@@ -22,7 +22,22 @@ Points == UNION { UNION { { [s |-> Obs[x].s, op |-> j, call |-> Name(Letter(Obs[
 Short == { [p EXCEPT !.call = "fwrite-short"] : p \in {q \in Points : q.call = "fwrite"} }
 \* the same refusals with errno = EINTR (a signal arrived): still a failure of that call
 Eintr == { [p EXCEPT !.call = p.call \o "-eintr"] : p \in {q \in Points : q.call \in {"open", "fstat", "read", "close", "fopen", "fwrite", "fclose"}} }
-ASSUME ndJsonSerialize(IOEnv.OUT, SetToSeq(Points \cup Short \cup Eintr))
+\* a read that reports the end of the file although fstat announced more bytes (file truncated meanwhile, sysfs attribute)
+Eof == { [p EXCEPT !.call = "read-eof"] : p \in {q \in Points : q.call = "read"} }
+\* two refusals within one API call (a failing medium fails write and close alike): a failing or short fwrite, read or mremap
+\* followed by the failure of a later fclose / close / munmap of the same op; nth2 counts within the op like nth
+First2 == {"j", "g", "c"}
+Second2 == {"k", "h", "d"}
+PairsOf(x, j) ==
+  LET str == Obs[x].ops[j] IN
+  { [s |-> Obs[x].s, op |-> j, call |-> Name(Letter(str, k1)) \o "+" \o Name(Letter(str, k2)), nth |-> Nth(str, k1), nth2 |-> Nth(str, k2)] :
+      k1 \in {q \in 1..Len(str) : Letter(str, q) \in First2}, k2 \in {q \in 1..Len(str) : Letter(str, q) \in Second2} }
+  \cup
+  { [s |-> Obs[x].s, op |-> j, call |-> "fwrite-short+" \o Name(Letter(str, k2)), nth |-> Nth(str, k1), nth2 |-> Nth(str, k2)] :
+      k1 \in {q \in 1..Len(str) : Letter(str, q) = "j"}, k2 \in {q \in 1..Len(str) : Letter(str, q) \in Second2} }
+Pairs == UNION { UNION { {p \in PairsOf(x, j) : TRUE} : j \in 1..Len(Obs[x].ops) } : x \in 1..Len(Obs) }
+Single == { [s |-> p.s, op |-> p.op, call |-> p.call, nth |-> p.nth, nth2 |-> 0] : p \in Points \cup Short \cup Eintr \cup Eof }
+ASSUME ndJsonSerialize(IOEnv.OUT, SetToSeq(Single \cup {p \in Pairs : p.nth2 > 0}))
 VARIABLE x
 Init == x = 0
 Next == UNCHANGED x
